@@ -23,7 +23,8 @@ impl RecDest {
     fn tick(&mut self) -> std::io::Result<()> {
         self.calls += 1;
         if Some(self.calls) == self.panic_at { panic!("injected panic in the destination"); }
-        if Some(self.calls) == self.fail_at { return Err(std::io::Error::other("injected destination failure")); }
+        // (chunk == usize::MAX marks the runs whose injected failure is a transient one: ErrorKind::Interrupted, once)
+        if Some(self.calls) == self.fail_at { return Err(if self.chunk == Some(usize::MAX) { std::io::Error::new(std::io::ErrorKind::Interrupted, "injected interruption") } else { std::io::Error::other("injected destination failure") }); }
         Ok(())
     }
     fn snap(&mut self) { if self.keep { self.snaps.push((self.writes > 0, self.inner.get_ref().clone())); } }
@@ -88,7 +89,11 @@ fn gen(rng: &mut Rng, valid_entries: bool, empty_beyond: bool, max_ops: u64) -> 
     let mut used = 0;
     for _ in 0..nops {
         match rng.below(5) {
-            0 | 1 => { let big = rng.chance(1, 8); let k = rng.below(if big { 600 } else { 40 }); let v: Vec<u8> = (0..k).map(|_| rng.next() as u8).collect(); len += k; ops.push(Op::Grow(v)); }
+            // (one growth step in sixteen is a page or more of one repeated byte, mostly zero: data that looks like a hole)
+            0 | 1 => { let big = rng.chance(1, 8); let flat = rng.chance(1, 16);
+                       let k = if flat { *rng.pick(&[4096u64, 4097, 8192, 5000]) } else { rng.below(if big { 600 } else { 40 }) };
+                       let fillb = if rng.chance(3, 4) { 0u8 } else { rng.next() as u8 };
+                       let v: Vec<u8> = (0..k).map(|_| if flat { fillb } else { rng.next() as u8 }).collect(); len += k; ops.push(Op::Grow(v)); }
             2 => ops.push(Op::Flush(None)),
             _ if used < n => {
                 used += 1;
@@ -265,7 +270,10 @@ pub fn run_live(a: &Args) {
         let mut runs: Vec<(Option<usize>, Option<usize>, bool)> = vec![(None, None, false), (None, Some(*rng.pick(&[1usize, 7, 100, 4096])), false), (None, None, true)];
         // every call as a fault point on the first two targets (a dump takes milliseconds), a sample on the others
         let ks: Vec<usize> = if a.tier == "thorough" || case < 2 { (2..=total).collect() } else { (0..5).map(|_| rng.range(2, total.max(3) as u64) as usize).collect() };
-        for k in ks { runs.push((Some(k), None, false)); }   // a destination that tears single writes cannot keep the header+directory write atomic: not combined with injected errors
+        for k in ks { runs.push((Some(k), None, false)); }
+        // the first target again with a TRANSIENT failure (Interrupted) at each of the first calls: whether the request then
+        // fails or carries on, the destination must stay consistent / equal the image
+        if case == 0 { for k in 1..=12usize { runs.push((Some(k), Some(usize::MAX), false)); } out.count("run.transient_failures"); }   // a destination that tears single writes cannot keep the header+directory write atomic: not combined with injected errors
         // a destination positioned at and beyond 4 GiB (offsets that do not fit 32 bits)
         for start in [1u64 << 32, (1 << 32) + 64, (1 << 40) + 12345, u32::MAX as u64] {
             if case >= 3 && a.tier != "thorough" { break; }
